@@ -202,7 +202,7 @@ impl Property for C12 {
         "proptest histories (<=40 quick / <=70 thorough ops) of mint, mint_from, transfer, approve, transfer_from, burn, burn_from, minter/owner changes and ledger advancement and the standard admin interface's set_authorized / clawback (stubs at the pinned commit: acceptance undecided; an accepted set_authorized moves nothing, an accepted clawback burns exactly the stated non-negative amount and never more than the balance; holders a tree de-authorises are undecided for debits and credits afterwards) on a natively registered InterchainToken over 4 accounts, amounts drawn relative to the model state (0, +-1, balance, balance+-1, allowance, allowance+-1, i128::MAX, negative); oracle = reference ledger, sweep of all balances/allowances and sum-of-balances after every step, standard token events compared. non-trivial = history in which an allowance is used at exactly its expiration ledger or one after, or an amount equal to balance/allowance +-1 is used; distinct by Debug hash of the case"
     }
     fn cases(&self, tier: Tier) -> u64 {
-        tier.pick(4000, 60000)
+        tier.pick(5000, 75000)
     }
     fn strategy(&self, tier: Tier) -> BoxedStrategy<Case> {
         let max = tier.pick(40usize, 70usize);
@@ -235,6 +235,18 @@ impl Property for C12 {
                     Op::Advance(3),
                     Op::TransferFrom { spender: 2, from: 1, to: 3, amt: Amt::Small(10) },
                     Op::Advance(1),
+                    Op::TransferFrom { spender: 2, from: 1, to: 3, amt: Amt::Small(10) },
+                    Op::BurnFrom { spender: 2, from: 1, amt: Amt::One },
+                ],
+            },
+            // an unlimited allowance is an allowance: every delegated spend reduces it by exactly the amount spent
+            Case {
+                sweep: None,
+                start_seq: 7,
+                initial_minter: None,
+                ops: vec![
+                    Op::Mint { to: 1, amt: Amt::Small(100) },
+                    Op::Approve { from: 1, spender: 2, amt: Amt::Max, exp: Exp::Plus(50) },
                     Op::TransferFrom { spender: 2, from: 1, to: 3, amt: Amt::Small(10) },
                     Op::BurnFrom { spender: 2, from: 1, amt: Amt::One },
                 ],
